@@ -27,26 +27,36 @@ def _seed():
 
 def cmd_run(prop, tier, runs=None, budget=None, quiet=False):
     seams.import_phylib()
-    engine_name, engine, cfg = engines.for_prop(prop)
+    cfg = engines.PROPS[prop]
+    parts = engines.parts_for(prop)
     seed = _seed()
-    explicit = None
-    exhaustive = None
-    if hasattr(engine, 'enumerate_plans'):
-        explicit = engine.enumerate_plans(prop, tier)
-        exhaustive = bool(explicit) and None  # the seeded part is sampling; see coverage keys
-    if tier == 'quick':
-        n_runs = runs if runs is not None else int(os.environ.get('VERIF_RUNS', cfg['quick_runs']))
-        batch = core.run_batch(engine_name, prop, tier, seed, n_runs=n_runs,
-                               explicit_plans=explicit)
-    else:
-        budget_s = budget if budget is not None else float(
-            os.environ.get('VERIF_BUDGET_S', cfg['thorough_s']))
-        if runs is not None:
-            batch = core.run_batch(engine_name, prop, tier, seed, n_runs=runs,
-                                   explicit_plans=explicit)
+    batch = core.Batch()
+    batch.wall_s = 0.0
+    n_explicit = 0
+    engine = parts[0][1]
+    engine_name = parts[0][0]
+    for (ename, eng, quick_runs, share) in parts:
+        explicit = eng.enumerate_plans(prop, tier) if hasattr(eng, 'enumerate_plans') else None
+        n_explicit += len(explicit or [])
+        if tier == 'quick' or runs is not None:
+            if runs is not None:
+                n_runs = max(1, int(runs * (quick_runs / float(parts[0][2]))))
+            else:
+                n_runs = int(int(os.environ.get('VERIF_RUNS', 0)) * quick_runs / parts[0][2]) \
+                    or quick_runs
+            b = core.run_batch(ename, prop, tier, seed, n_runs=n_runs, explicit_plans=explicit)
         else:
-            batch = core.run_batch(engine_name, prop, tier, seed, budget_s=budget_s,
-                                   explicit_plans=explicit, chunk=40)
+            budget_s = budget if budget is not None else float(
+                os.environ.get('VERIF_BUDGET_S', cfg['thorough_s']))
+            b = core.run_batch(ename, prop, tier, seed, budget_s=budget_s * share,
+                               explicit_plans=explicit, chunk=40)
+        for v in b.violations:
+            v['engine'] = ename
+        for h in b.harness:
+            h['engine'] = ename
+        batch.merge(b)
+    explicit = n_explicit
+    by_engine = dict((p[0], p[1]) for p in parts)
 
     exit_code = 0
     lines = []
@@ -62,7 +72,7 @@ def cmd_run(prop, tier, runs=None, budget=None, quiet=False):
             if h.get('plan') is not None:
                 p = core.REPLAY_DIR / ('harness-%s-%s.json' % (prop, h['seed']))
                 core.REPLAY_DIR.mkdir(exist_ok=True)
-                p.write_text(core.cjson({'property': prop, 'engine': engine_name,
+                p.write_text(core.cjson({'property': prop, 'engine': h.get('engine', engine_name),
                                          'tier': tier, 'plan': h['plan'],
                                          'signature': h['signature']}))
                 lines.append('  plan saved to %s' % p)
@@ -77,15 +87,16 @@ def cmd_run(prop, tier, runs=None, budget=None, quiet=False):
         by_sig.setdefault(v['signature'], []).append(v)
     for sig, vs in list(by_sig.items())[:8]:
         v = vs[0]
-        plan, n_exec = core.shrink(engine, v['plan'], prop, tier, sig)
-        res = core.execute_plan(engine, copy.deepcopy(plan), prop, tier)
+        v_engine = by_engine[v.get('engine', engine_name)]
+        plan, n_exec = core.shrink(v_engine, v['plan'], prop, tier, sig)
+        res = core.execute_plan(v_engine, copy.deepcopy(plan), prop, tier)
         if not (res.verdict == 'violation' and res.signature == sig):
             # shrunk plan does not reproduce (should not happen): fall back to the original
             plan = v['plan']
-            res = core.execute_plan(engine, copy.deepcopy(plan), prop, tier)
+            res = core.execute_plan(v_engine, copy.deepcopy(plan), prop, tier)
         kf = core.match_known_finding(prop, sig, plan)
-        path = core.write_replay(prop, engine_name, plan, sig, res.detail, res.log_digest,
-                                 v['seed'], tier)
+        path = core.write_replay(prop, v.get('engine', engine_name), plan, sig, res.detail,
+                                 res.log_digest, v['seed'], tier)
         if kf is not None:
             known_hits.append({'id': kf.get('id'), 'signature': sig, 'count': len(vs)})
             lines.append('KNOWN-FINDING: property=%s %s [%s; %d run(s); replay=%s]' % (
@@ -118,11 +129,16 @@ def cmd_run(prop, tier, runs=None, budget=None, quiet=False):
     stuck = [p for p in expected if not batch.probes.get(p) and not batch.faults.get(p)]
     extra = {'probes_stuck_at_zero': stuck}
     if explicit:
-        extra['enumerated_plans'] = len(explicit)
+        extra['enumerated_plans'] = explicit
         extra['enumerated_space'] = getattr(engine, 'ENUMERATED_SPACE', '')
         extra['exhaustive'] = False
         extra['exhaustive_note'] = ('the enumerated sub-space (%d plans) was executed completely; '
-                                    'the seeded part is sampling' % len(explicit))
+                                    'the seeded part is sampling' % explicit)
+    if len(parts) > 1:
+        extra['engines'] = [p[0] for p in parts]
+        extra['rule_extra'] = {p[0]: (p[1].RULE.get(prop) if isinstance(p[1].RULE, dict) else '')
+                               for p in parts[1:]}
+        extra['components_extra'] = {p[0]: p[1].COMPONENTS for p in parts[1:]}
     core.write_evidence(prop, tier, seed, cfg['level'], batch, engine, extra_coverage=extra,
                         violations=n_viol, known_hits=known_hits)
     if not quiet:
